@@ -31,7 +31,7 @@ pub(in super::super) fn compile_query(
         maybe_dialect.unwrap_or_default()
     };
 
-    let (anchor, main_relation) = AnchorContext::of(query);
+    let (anchor, main_relation) = AnchorContext::of(query)?;
 
     let mut ctx = Context::new(dialect, anchor);
 
